@@ -124,6 +124,12 @@ SeedsStruct5s == {
 SeedsSeg6s == {
    << <<KPaint,0,3,1,2>>, <<KPaint,1,1,2,2>>, <<KPaint,1,4,3,4>>, <<KAddEdge,1,3,0,0>>,
       <<KPaint,2,1,4,6>>, <<KPaint,2,4,5,8>>, <<KAddEdge,2,5,0,0>> >> }
+\* 5 labels on 1x3 frames, for the BULK IoU computation: (i) node 1@0 divides into 3@1 and 5@2 (a skip edge) while
+\* node 2@0 has a child 4@1 - the out-edges of frame 0 alternate between target frames 1, 2, 1;
+\* (ii) a skip edge 1@0 -> 3@2 next to an overlapping consecutive edge 2@1 -> 4@2
+SeedsSeg5s == {
+   << <<KPaint,0,1,1,2>>, <<KPaint,0,4,2,4>>, <<KPaint,1,3,3,2>>, <<KPaint,2,1,5,6>>, <<KAddEdge,1,5,0,0>>, <<KPaint,1,4,4,4>> >>,
+   << <<KPaint,0,1,1,2>>, <<KPaint,2,1,3,2>>, <<KPaint,1,6,2,4>>, <<KPaint,2,6,4,4>> >> }
 RECURSIVE RunPath(_, _)
 RunPath(s, p) == IF p = <<>> THEN s ELSE RunPath(Trim(StepOrd(s, Head(p), 1).s), Tail(p))
 
